@@ -16,7 +16,7 @@ from ..world import World
 ID = "C15"
 DELTA = 0.1
 SLACK = 0.5
-KINDS = ["idle", "partial-head", "short", "long", "stuck", "h2-idle", "h2-short", "h2-stuck", "ws-open"]
+KINDS = ["idle", "partial-head", "short", "long", "stuck", "h2-idle", "h2-short", "h2-stuck", "ws-open", "h2-two-short"]
 
 
 def _cases() -> List[dict]:
@@ -75,7 +75,7 @@ def run(tape: Tape, params: dict) -> Outcome:
         n = 1 + tape.draw(6, "nconn")
         kinds = [KINDS[tape.draw(len(KINDS), "conn.kind")] for _ in range(n)]
         source = ["callable", "max_requests"][tape.weighted([3, 1], "trigger.source")]
-        life = ["fast", "slow", "hang"][tape.weighted([4, 2, 1], "lifespan.shutdown")]
+        life = ["fast", "slow", "hang", "linger"][tape.weighted([4, 2, 1, 2], "lifespan.shutdown")]
     t_trigger = 1.0
     short_d = G / 2
     long_d = G + 1.0
@@ -83,6 +83,9 @@ def run(tape: Tape, params: dict) -> Outcome:
         host.lifespan_program = [("call", _lifespan(S / 2))]
     elif life == "hang":
         host.lifespan_program = [("call", _lifespan(None))]
+    elif life == "linger":
+        # answers the shutdown and goes on waiting for messages instead of returning
+        host.lifespan_program = [("call", _lifespan(0.0, linger=True))]
     conns: List[Dict[str, Any]] = []
     n_requests = 0
     for ci, kind in enumerate(kinds):
@@ -113,12 +116,20 @@ def run(tape: Tape, params: dict) -> Outcome:
             peer = H2Peer()
             peer.clock = lambda: sim.now
             sid = peer.new_stream()
+            sid2 = peer.new_stream() if kind == "h2-two-short" else None
             late_sid = peer.new_stream()
             entry.update(peer=peer, sid=sid, late_sid=late_sid)
             if kind == "h2-idle":
                 host.programs[tag] = [("recv_all",), ("respond", 200, [], [b"ok"])]
-            elif kind == "h2-short":
+            elif kind in ("h2-short", "h2-two-short"):
                 host.programs[tag] = [("recv_all",), ("pause", ("sleep", 0.3 + short_d)), ("respond", 200, [], [b"done-" + tag])]
+                if kind == "h2-two-short":
+                    # a sibling stream that finishes first, also inside the grace period
+                    tag2 = tag + b"x"
+                    entry.update(sid2=sid2, tag2=tag2)
+                    host.programs[tag2] = [("recv_all",), ("pause", ("sleep", 0.3 + short_d / 2)),
+                                           ("respond", 200, [], [b"done-" + tag2])]
+                    n_requests += 1
             else:
                 host.programs[tag] = [("recv_all",), ("hang",)]
             n_requests += 1
@@ -128,6 +139,14 @@ def run(tape: Tape, params: dict) -> Outcome:
                                                        (b":authority", b"example.test"), (b":path", b"/" + tag),
                                                        (b"x-tag", tag)], end_stream=True))
 
+            def open_second(sc: Script, peer: H2Peer = peer, entry: Dict[str, Any] = entry) -> None:
+                if "sid2" in entry:
+                    t2 = entry["tag2"]
+                    sc.conn.client.send(peer.headers(entry["sid2"], [(b":method", b"GET"), (b":scheme", b"http"),
+                                                                     (b":authority", b"example.test"),
+                                                                     (b":path", b"/" + t2), (b"x-tag", t2)],
+                                                     end_stream=True))
+
             def late_stream(sc: Script, peer: H2Peer = peer, sid: int = late_sid, tag: bytes = tag) -> None:
                 if sc.ended:
                     return
@@ -136,7 +155,7 @@ def run(tape: Tape, params: dict) -> Outcome:
                                                        (b":authority", b"example.test"), (b":path", b"/" + t),
                                                        (b"x-tag", t)], end_stream=True))
 
-            steps = [("send", peer.preface()), ("call", open_stream),
+            steps = [("send", peer.preface()), ("call", open_stream), ("call", open_second),
                      ("call", lambda sc, f=late_stream: sim.at(t_trigger + 0.05, f, sc)),
                      ("wait", lambda sc: False, 40.0)]
             s = Script(world, steps, peer)
@@ -179,7 +198,7 @@ def run(tape: Tape, params: dict) -> Outcome:
     return finish_outcome(world, out)
 
 
-def _lifespan(shutdown_delay: Optional[float]) -> Any:
+def _lifespan(shutdown_delay: Optional[float], linger: bool = False) -> Any:
     async def prog(host: Any, inst: Any, receive: Any, send: Any) -> None:
         while True:
             m = await host._recv(inst, receive)
@@ -190,7 +209,8 @@ def _lifespan(shutdown_delay: Optional[float]) -> Any:
                     await host._hang()
                 await host._sleep(shutdown_delay)
                 await host._send(inst, send, {"type": "lifespan.shutdown.complete"})
-                return
+                if not linger:
+                    return
 
     return prog
 
@@ -251,7 +271,7 @@ def _check(world: World, host: AppHost, conns: List[Dict[str, Any]], late: Scrip
         if kind in ("idle", "partial-head", "h2-idle"):
             if closed is None or closed > t0 + DELTA + conn.s2c_latency:
                 bad("idle-closed", f"{kind} connection closed at {closed}, shutdown began at {t0:.3f}", **key)
-        if kind in ("short", "h2-short"):
+        if kind in ("short", "h2-short", "h2-two-short"):
             # finishing inside the grace period: delivered in full
             if kind == "short":
                 rs = script.parser.responses
@@ -259,6 +279,9 @@ def _check(world: World, host: AppHost, conns: List[Dict[str, Any]], late: Scrip
             else:
                 st = entry["peer"].streams.get(entry["sid"])
                 ok = st is not None and st.complete and bytes(st.data) == b"done-" + tag
+                if ok and "sid2" in entry:
+                    st2 = entry["peer"].streams.get(entry["sid2"])
+                    ok = st2 is not None and st2.complete and bytes(st2.data) == b"done-" + entry["tag2"]
             if not ok:
                 bad("in-grace-delivered", f"{kind} request finishing inside the grace period was not delivered in full",
                     **key)
@@ -282,7 +305,7 @@ def _check(world: World, host: AppHost, conns: List[Dict[str, Any]], late: Scrip
                         f"({t0 + G:.3f}) ran out", **key)
         if kind.startswith("h2"):
             peer: H2Peer = entry["peer"]
-            if peer.goaway is None and conn.client.server_closed_at is not None and kind == "h2-short":
+            if peer.goaway is None and conn.client.server_closed_at is not None and kind in ("h2-short", "h2-two-short"):
                 # a connection that drains inside the grace period is told to go away before it is closed;
                 # one that is cut down by the forced cancel has no chance to say anything
                 bad("goaway", f"{kind}: connection ended without GOAWAY", **key)
